@@ -359,7 +359,8 @@ def seq_strategy():
         cuts = sorted(draw(st.lists(st.integers(0, n), min_size=nfrag - 1, max_size=nfrag - 1)))
         # control frames between the fragments: pings/pongs, occasionally the peer's (valid) close - after which the peer sends nothing more
         ctl = draw(st.lists(st.tuples(st.integers(0, nfrag), st.sampled_from([9, 10, 9, 10, 9, 10, 8]), st.integers(0, 125)), max_size=2))
-        return {"t": "msg", "bin": binary, "len": n, "salt": draw(st.integers(0, 999)), "cuts": cuts, "ctl": ctl}
+        # "z": on a connection with permessage-deflate the peer compresses this message (RSV1 on its first frame) - or not: both are legal at any time
+        return {"t": "msg", "bin": binary, "len": n, "salt": draw(st.integers(0, 999)), "cuts": cuts, "ctl": ctl, "z": draw(st.booleans())}
 
     item = st.one_of(message(), message(), st.fixed_dictionaries({"t": st.just("ctl"), "op": st.sampled_from([9, 10]), "len": st.integers(0, 125)}))
 
@@ -393,6 +394,7 @@ def build_frames(c):
 
     class PeerClosed(Exception):
         pass
+    zcomp = zlib.compressobj(zlib.Z_DEFAULT_COMPRESSION, zlib.DEFLATED, -15)
 
     def emit_items(items):
         for it in items:
@@ -400,8 +402,14 @@ def build_frames(c):
                 add(it["op"], pattern(it["len"], 3))
                 continue
             payload = pattern(it["len"], it["salt"]) if it["bin"] else utf8_text(it["len"], it["salt"])
+            rsv1 = 0
+            cuts = it["cuts"]
+            if c["comp"] and it.get("z") and payload:
+                payload = (zcomp.compress(payload) + zcomp.flush(zlib.Z_SYNC_FLUSH))[:-4]     # one compressor per connection: context takeover
+                rsv1 = 4
+                cuts = sorted(min(x, len(payload)) for x in cuts)
             parts, pos = [], 0
-            for cpos in it["cuts"] + [len(payload)]:
+            for cpos in cuts + [len(payload)]:
                 parts.append(payload[pos:cpos])
                 pos = cpos
             for k, part in enumerate(parts):
@@ -411,7 +419,7 @@ def build_frames(c):
                             add(8, struct.pack("!H", 1000 + ln % 2 * 2000) + (b"bye \xc3\xa9" if ln % 3 else b""))
                             raise PeerClosed()
                         add(op, pattern(ln, 5))
-                add((2 if it["bin"] else 1) if k == 0 else 0, part, fin=(k == len(parts) - 1))
+                add((2 if it["bin"] else 1) if k == 0 else 0, part, fin=(k == len(parts) - 1), rsv=rsv1 if k == 0 else 0)
 
     try:
         emit_items(c["items"][:c["vpos"]])
@@ -565,6 +573,8 @@ def check_sequence(c):
     from harness import ref6455
     frames = build_frames(c)
     model = ref6455.Receiver(c["server"], compression=c["comp"], utf8=True)
+    if c["comp"]:
+        model.inflater = ref6455.RawInflater(15, False)
     for f in frames:
         length = f["declared"] if f["declared"] is not None else len(f["payload"])
         form = f["form"] or (7 if length <= 125 else (126 if length <= 0xFFFF else 127))
